@@ -45,27 +45,29 @@ type c11SrvResult struct {
 }
 
 func c11SpaceServer(c *fw.Ctx) {
-	c.Space("server", "real dns.Server (TsigSecret {k1,k3: A; k2: B}) on a scripted listener, handler answers through the real dns.Transfer.Out with n = 1..3 envelopes × 5 algorithms × 2 secrets: the query signed by the reference model gives TsigStatus() == nil and every written envelope verifies under the reference as a chain over the query MAC (first: full variables, following: timers only), with the unsigned part = Pack(reply); a second, ordinary signed query on the same connection after the transfer is answered with a reply digested over its own MAC and the full variables; queries signed with another secret / unknown key / over a request MAC / in timers-only mode / unsigned, every single-bit flip and every truncation of the valid query: the handler must not see IsTsig() != nil ∧ TsigStatus() == nil unless the reference accepts, and then no reply may carry a TSIG; non-trivial: every case", true,
+	c.Space("server", "real dns.Server (TsigSecret {k1,k3: A; k2: B}, and the same keys through Server.TsigProvider beside a TsigSecret map of other secrets) on a scripted listener, handler answers through the real dns.Transfer.Out with n = 1..3 envelopes × 5 algorithms × 2 secrets: the query signed by the reference model gives TsigStatus() == nil and every written envelope verifies under the reference as a chain over the query MAC (first: full variables, following: timers only), with the unsigned part = Pack(reply); a second, ordinary signed query on the same connection after the transfer is answered with a reply digested over its own MAC and the full variables; queries signed with another secret / unknown key / over a request MAC / in timers-only mode / unsigned, every single-bit flip and every truncation of the valid query: the handler must not see IsTsig() != nil ∧ TsigStatus() == nil unless the reference accepts, and then no reply may carry a TSIG; non-trivial: every case", true,
 		func(emit func(func(*fw.R))) {
 			for _, alg := range c11Algs {
 				for secret := 0; secret < 2; secret++ {
 					for n := 1; n <= 3; n++ {
-						alg, secret, n := alg, secret, n
-						emit(func(r *fw.R) { c11Server(r, alg, secret, n) })
+						for _, prov := range []bool{false, true} {
+							alg, secret, n, prov := alg, secret, n, prov
+							emit(func(r *fw.R) { c11Server(r, alg, secret, n, prov) })
+						}
 					}
 				}
 			}
 		})
 }
 
-func c11Server(r *fw.R, alg string, secret, n int) {
+func c11Server(r *fw.R, alg string, secret, n int, prov bool) {
 	r.Nontrivial()
 	b64, raw := c11SecretMap(secret)
 	lookup := func(name [][]byte) ([]byte, bool) {
 		sec, ok := raw[rt.AlgName(name)]
 		return sec, ok
 	}
-	ctx := fmt.Sprintf("server{alg=%s envelopes=%d TsigSecret=%v}", alg, n, b64)
+	ctx := fmt.Sprintf("server{alg=%s envelopes=%d TsigSecret=%v via TsigProvider=%v}", alg, n, b64, prov)
 
 	var cur *c11SrvResult
 	handler := dns.HandlerFunc(func(w dns.ResponseWriter, req *dns.Msg) {
@@ -97,6 +99,9 @@ func c11Server(r *fw.R, alg string, secret, n int) {
 	l := &c11Listener{ch: make(chan net.Conn), done: make(chan struct{})}
 	started := make(chan struct{})
 	srv := &dns.Server{Listener: l, TsigSecret: b64, Handler: handler, NotifyStartedFunc: func() { close(started) }}
+	if prov {
+		srv.TsigProvider, srv.TsigSecret = &c11Provider{keys: raw}, c11DecoySecrets(b64)
+	}
 	served := make(chan error, 1)
 	go func() { served <- srv.ActivateAndServe() }()
 	<-started
